@@ -10,11 +10,11 @@ CONSTANTS
   CreatePeriod = 2
   FeeSet = {0, 1, 2}
   DtSet = {0, 1, 2, 3}
-  LimitSet = {0, 1, 2, 3, 4, 5}
+  LimitSet = {0, 100}
   ExecOffsets = {0, 1, 2, 3, 4}
   MaxH = 100
   StartWithGroup = TRUE
-  Bal0 = 6
+  Bal0 = 1000
   Depth = 26
 SPECIFICATION GSpec
 INVARIANT Emit
